@@ -7,12 +7,21 @@ Line-protocol handlers for the solver bridge (property C20).
   nostart <iface 0|1|2>                                          → the interface function when Popen raised OSError
   select  <0 | 1 cmd> <0 | 1 sameas> L(installed names)          → selectInterface
 
+  fvariant                                                         → which snapshot the current source is (0 current, 1 patched, none)
+  frun    <variant 0 current|1 patched|2 = the one the source matches> <iface> L(schedule: 0 ok, 1 OSError, 2 other) <rmIn> <rmOut> <hasFile>
+          L(stdout bytes) L(file bytes) <exit>                     → runProg (one interface function under a fault schedule)
+  fsolve  <variant> <0 | 1 cmd> <0 | 1 sameas> L(installed names) L(schedule) <rmIn> <rmOut> <hasFile>
+          L(stdout bytes) L(file bytes) <exit>                     → solveW (the same solver behaviour behind every command)
+
 Answers: `OK T <n> l₁ … l_n` (True, witness) | `OK T N` (True, None) | `OK F N` | `OK F <n> …`
          `OK <iface> <#tokens> tok₁ …` (each token a length-prefixed list of code points)
          `ERR <PythonExceptionName>`
+         frun / fsolve: `OK <verdict as above | E <OSError|Other|PythonExceptionName>> | left <ids> | refused <ids> |
+                         started <0|1> | <resource calls, e.g. mktemp:f0 render write:f0 close:f0 spawn:f0 communicate:0 unlink:f0>`
 -/
 import CnfgenModel.Driver.Util
 import CnfgenModel.Solver.Select
+import CnfgenModel.Solver.Run
 namespace Cnfgen.Driver.Solver
 open Cnfgen Cnfgen.Driver Cnfgen.Solver
 
@@ -38,6 +47,50 @@ def fmtSelect (r : Iface × String) : String :=
 def ifaceOfInt : Int → Option Iface
   | 0 => some .stdinStdout | 1 => some .fileInStdout | 2 => some .fileInFileOut | _ => none
 
+def slotName : Cnfgen.Gen.RSlot → String
+  | .cnf => "f0" | .sat => "f1"
+
+def opName : Cnfgen.Gen.ROp → String
+  | .mktemp s => "mktemp:" ++ slotName s
+  | .render => "render"
+  | .write s => "write:" ++ slotName s
+  | .close s => "close:" ++ slotName s
+  | .spawn fs => "spawn:" ++ ",".intercalate (fs.map slotName)
+  | .communicate i => "communicate:" ++ (if i then "1" else "0")
+  | .openRead s => "open:" ++ slotName s
+  | .read s => "read:" ++ slotName s
+  | .unlink s => "unlink:" ++ slotName s
+  | .unlinkIf s => "unlink:" ++ slotName s
+  | .unknown w => "unknown:" ++ w
+
+def fmtObs (o : Obs) : String :=
+  (match o.outcome with
+   | .ok r => fmtVerdict r
+   | .error e => "E " ++ e.name) ++
+  " | left" ++ o.left.foldl (fun s p => s ++ " " ++ toString p) "" ++
+  " | refused" ++ o.refused.foldl (fun s p => s ++ " " ++ toString p) "" ++
+  " | started " ++ (if o.started then "1" else "0") ++
+  " |" ++ o.trace.foldl (fun s p => s ++ " " ++ opName p) ""
+
+def faultOfInt : Int → Option Fault
+  | 0 => some .ok | 1 => some .os | 2 => some .other | _ => none
+
+def sched : P (List Fault) := do
+  let l ← ints
+  match l.mapM faultOfInt with
+  | some s => pure s
+  | none => failure
+
+def variantOfInt : Int → Option Variant
+  | 0 => some .current | 1 => some .patched
+  | 2 => some (sourceVariant.getD .current)   -- the reviewed snapshot that the regenerated skeletons match (else: current)
+  | _ => none
+
+def beh : P Beh := do
+  let rmIn ← bool; let rmOut ← bool; let hasFile ← bool
+  let out ← nats; let file ← nats; let ex ← nat
+  pure { stdout := out, file := if hasFile then some file else none, exit := ex, rmIn := rmIn, rmOut := rmOut }
+
 def handle (opname : String) (a : Args) : Option String :=
   match opname with
   | "pstdout" => run (do let ls ← listOf chars; pure (fmtExcept fmtVerdict (parseStdout ls))) a
@@ -52,6 +105,22 @@ def handle (opname : String) (a : Args) : Option String :=
       let cmd ← optStr; let sameas ← optStr
       let inst ← listOf (do let s ← chars; pure (String.ofList s))
       pure (fmtExcept fmtSelect (selectInterface cmd sameas inst))) a
+  | "fvariant" => run (pure (match sourceVariant with
+      | some .current => "OK 0" | some .patched => "OK 1" | none => "ERR none")) a
+  | "frun" => run (do
+      let v ← int; let i ← int
+      let sc ← sched; let b ← beh
+      match variantOfInt v, ifaceOfInt i with
+      | some v, some f => pure (ok (fmtObs (runProg v f b sc)))
+      | _, _ => failure) a
+  | "fsolve" => run (do
+      let v ← int
+      let cmd ← optStr; let sameas ← optStr
+      let inst ← listOf (do let s ← chars; pure (String.ofList s))
+      let sc ← sched; let b ← beh
+      match variantOfInt v with
+      | some v => pure (ok (fmtObs (solveW v inst (fun _ _ => b) sc cmd sameas)))
+      | none => failure) a
   | _ => none
 
 end Cnfgen.Driver.Solver
